@@ -215,7 +215,12 @@ impl<'a, L> Engine<'a, L> {
             // we will include it later
             return Ok(None);
         }
-        if self.list_node.contains_key(s_id)
+        // NB: a list node is only folded into its parent *in the graph of that parent*;
+        // a node with the same label described in another graph must be kept
+        if self
+            .list_node
+            .get(s_id)
+            .is_some_and(|iparent| self.gs_id[*iparent].0 == *g_id)
             || (self.options.rdf_direction() == Some(RdfDirection::CompoundLiteral)
                 && self.compound_literals.contains(&inode))
         {
